@@ -63,6 +63,11 @@ def handle (toks : List String) : String :=
       | some fs => ok [V.ofByteNats (Spec.encodeUrlencoded fs),
                        .list ((Spec.expectedFields fs).map (fun (n, vs) => .list [V.ofCps n, .list (vs.map V.ofByteNats)]))]
       | none => err "bad-arg"
+    | [.atom "formenc8", fields] =>
+      match decFields fields with
+      | some fs => ok [V.ofByteNats (Spec.encodeUrlencodedUtf8 fs),
+                       .list ((Spec.expectedFields fs).map (fun (n, vs) => .list [V.ofCps n, .list (vs.map V.ofByteNats)]))]
+      | none => err "bad-arg"
     | _ => err "bad-cmd"
 
 end TornadoModel.C30.Drv
